@@ -29,8 +29,24 @@ pub fn letter(l: usize, i: usize) -> Value {
     match l {
         0 => json!(format!("T{}", i)),
         1 => falsy(i),
-        2 => json!({"var": format!("t{}", i)}),
-        3 => json!({"var": format!("f{}", i)}),
+        // data references through every kind of path (plain key, array index, negative index, string
+        // index, escaped dot, nested, integer key)
+        2 => match i % 7 {
+            0 => json!({"var": format!("t{}", i)}),
+            1 => json!({"var": "ts.1"}),
+            2 => json!({"var": "name.0"}),
+            3 => json!({"var": "ts.-1"}),
+            4 => json!({"var": "o.k\\.x"}),
+            5 => json!({"var": ["o.deep.er"]}),
+            _ => json!({"var": "name.-1"}),
+        },
+        3 => match i % 5 {
+            0 => json!({"var": format!("f{}", i)}),
+            1 => json!({"var": "fs.0"}),
+            2 => json!({"var": "name.7"}),
+            3 => json!({"var": "o.zero"}),
+            _ => json!({"var": "fs.-1"}),
+        },
         4 => json!({"+": ["x"]}),
         5 => json!({"==": []}),
         6 => json!({"log": format!("M{}", i)}),
@@ -55,6 +71,10 @@ pub fn data_a() -> Value {
         m.insert(format!("t{}", i), tv);
         m.insert(format!("f{}", i), falsy(i + 2));
     }
+    m.insert("ts".into(), json!(["x", "TS1", {"last": true}]));
+    m.insert("fs".into(), json!([0, "", []]));
+    m.insert("name".into(), json!("Bé"));
+    m.insert("o".into(), json!({"k.x": "KX", "deep": {"er": [0]}, "zero": 0}));
     Value::Object(m)
 }
 
